@@ -113,18 +113,21 @@ func panicKey(o connsim.Outcome) string {
 	cls := panicClass(o.Panic)
 	// innermost frame in the repository (file basename), for a stable, specific key
 	file := "?"
-	for _, line := range strings.Split(o.Stack, "\n") {
-		line = strings.TrimSpace(line)
-		if (strings.HasPrefix(line, "/repo/") || strings.Contains(line, "/go-redis/")) && strings.Contains(line, ".go:") {
-			f := line[strings.LastIndex(line, "/")+1:]
-			if i := strings.Index(f, ":"); i > 0 {
-				f = f[:i]
-			}
-			if f != "verif_hooks.go" {
-				file = f
-				break
-			}
+	lines := strings.Split(o.Stack, "\n")
+	for i := 0; i+1 < len(lines); i++ {
+		if !strings.Contains(lines[i], "github.com/cybergarage/go-redis/") || strings.Contains(lines[i], "VerifServe") {
+			continue
 		}
+		loc := strings.TrimSpace(lines[i+1])
+		if !strings.Contains(loc, ".go:") {
+			continue
+		}
+		f := loc[strings.LastIndex(loc, "/")+1:]
+		if j := strings.Index(f, ":"); j > 0 {
+			f = f[:j]
+		}
+		file = f
+		break
 	}
 	return cls + "|" + file
 }
